@@ -637,28 +637,34 @@ example : JsonTree.printData exJ =
      34, 108, 34, 58, 91, 123, 34, 107, 34, 58, 34, 49, 56, 34, 44, 34, 98, 34, 58, 116, 114, 117, 101, 125, 44, 123, 34, 107,
      34, 58, 34, 50, 34, 125, 93, 125, 44, 34, 110, 58, 121, 34, 58, 49, 125] := by decide +kernel
 
-/-- **JSON metadata, part one (RFC 7952 sec. 5.2.1 for containers and list entries).**  `json_tree_refines_spec` and
-    `json_document_faithful` now hold for trees in which containers and list entries carry annotations — the hypothesis
-    `JsonTree.OkL` only requires leaves and leaf-list instances to be without (`_partial`: the `@name` member of a leaf and the
-    `@name` array of a leaf-list are modelled and compared with libyang and with the state-free expectation `jsonViewM` on every
-    run, but not yet under the theorem).  This restates the pair for such a tree: the model of `json_print_data` /
-    `json_print_inner` / `json_print_metadata` writes, and the independent RFC 8259 reader recovers, every container and list entry
-    as an object whose FIRST member is `"@"` with the metadata object — one member `module:annotation` per annotation, values typed
-    as RFC 7951 sec. 6 says — followed by the children; annotations stay attached to the instance (list entry) they belong to. -/
-theorem json_document_faithful_meta_partial (forest : List JsonTree.JNode) (hok : JsonTree.OkL [] forest)
+/-- **JSON metadata (RFC 7952 sec. 5.2): annotations of leaves, containers and list entries.**  `json_tree_refines_spec` and
+    `json_document_faithful` hold for trees in which leaves, containers and list entries carry annotations — the decidable
+    hypothesis `JsonTree.OkL` only requires LEAF-LIST instances to be without (the `@name` ARRAY of a leaf-list is modelled and
+    compared with libyang and with the state-free expectation `jsonViewM` on every run, but is the one form not yet under the
+    theorem).  Restated for such a tree: the model of `json_print_data` / `json_print_leaf` / `json_print_inner` /
+    `json_print_attributes` / `json_print_metadata` writes, and the independent RFC 8259 reader recovers,
+    * every leaf with annotations as its member `name: value` IMMEDIATELY followed by the member `@name: {metadata object}`, the
+      `@name` qualified with the module exactly when `name` is;
+    * every container and list entry with annotations as an object whose FIRST member is `"@": {metadata object}`, followed by
+      the children;
+    * the metadata object with one member `module:annotation` per annotation, values typed as RFC 7951 sec. 6 says —
+    so every annotation stays attached to the node (the list entry, the leaf) it belongs to. -/
+theorem json_document_faithful_meta (forest : List JsonTree.JNode) (hok : JsonTree.OkL [] forest)
     (hadj : JsonTree.AdjKind forest) (hval : JsonTree.OkJL forest) :
     JsonTree.printData forest = JsonTree.specData forest ∧
     JsonDoc.parseDoc (JsonTree.printData forest) = some (JsonTree.jsonView forest) :=
   ⟨json_tree_refines_spec forest hok hadj, json_document_faithful forest hok hadj hval⟩
 
-/-- non-vacuity: a container with two annotations (a string that needs escaping, a number) holding a leaf and a list with two
-    entries, the second of which carries an annotation, the first none:
-    `{"m:c":{"@":{"m:h":"a\"","n:k":7},"x":1,"l":[{"k":"a"},{"@":{"m:h":"e"},"k":"b"}]}}` -/
+/-- non-vacuity: a container with two annotations (a string that needs escaping, a number) holding an annotated leaf, a plain
+    leaf of another module and a list with two entries, the second of which carries an annotation, the first none:
+    `{"m:c":{"@":{"m:h":"a\"","n:k":7},"x":1,"@x":{"n:k":2},"n:y":true,"l":[{"k":"a"},{"@":{"m:h":"e"},"k":"b","@k":{"m:h":"f"}}]}}` -/
 def exJM : List JsonTree.JNode :=
   [ .mk .cont 1 [109] [99] true [⟨[109], [104], .str, [97, 34]⟩, ⟨[110], [107], .lit, [55]⟩] .str []
-      [ .mk .leaf 2 [109] [120] true [] .lit [49] [],
+      [ .mk .leaf 2 [109] [120] true [⟨[110], [107], .lit, [50]⟩] .lit [49] [],
+        .mk .leaf 5 [110] [121] true [] .lit [116, 114, 117, 101] [],
         .mk .list 3 [109] [108] true [] .str [] [ .mk .leaf 4 [109] [107] true [] .str [97] [] ],
-        .mk .list 3 [109] [108] true [⟨[109], [104], .str, [101]⟩] .str [] [ .mk .leaf 4 [109] [107] true [] .str [98] [] ] ] ]
+        .mk .list 3 [109] [108] true [⟨[109], [104], .str, [101]⟩] .str []
+          [ .mk .leaf 4 [109] [107] true [⟨[109], [104], .str, [102]⟩] .str [98] [] ] ] ]
 
 theorem exJM_ok : JsonTree.OkL [] exJM ∧ JsonTree.AdjKind exJM ∧ JsonTree.OkJL exJM := by
   refine ⟨by simp [exJM, JsonTree.OkL, JsonTree.Ok, JsonTree.AdjKind, JsonTree.JNode.sid, JsonTree.JNode.kind],
@@ -667,10 +673,10 @@ theorem exJM_ok : JsonTree.OkL [] exJM ∧ JsonTree.AdjKind exJM ∧ JsonTree.Ok
   decide
 
 example : JsonTree.printData exJM = bytesOfString
-    "{\"m:c\":{\"@\":{\"m:h\":\"a\\\"\",\"n:k\":7},\"x\":1,\"l\":[{\"k\":\"a\"},{\"@\":{\"m:h\":\"e\"},\"k\":\"b\"}]}}" := by
+    "{\"m:c\":{\"@\":{\"m:h\":\"a\\\"\",\"n:k\":7},\"x\":1,\"@x\":{\"n:k\":2},\"n:y\":true,\"l\":[{\"k\":\"a\"},{\"@\":{\"m:h\":\"e\"},\"k\":\"b\",\"@k\":{\"m:h\":\"f\"}}]}}" := by
   decide +kernel
 
 example : JsonDoc.parseDoc (JsonTree.printData exJM) = some (JsonTree.jsonView exJM) :=
-  (json_document_faithful_meta_partial exJM exJM_ok.1 exJM_ok.2.1 exJM_ok.2.2).2
+  (json_document_faithful_meta exJM exJM_ok.1 exJM_ok.2.1 exJM_ok.2.2).2
 
 end LyModel.Props.C12
